@@ -2697,6 +2697,155 @@ theorem list_numbers_nested (cs : Styles) (targets : Targets) : ∀ (items : Lis
     omega
 
 
+/-! ### `counters()` nesting and target snapshots -/
+
+/-- **C15.counters_path** — `counters(name, sep, style)` prints the instances in scope outermost first,
+joined by the separator (the stack is kept innermost first). -/
+theorem counters_path (cs : Styles) (style : CName) (sep : String) (stack : List Int) (texts : List String)
+    (h : stack.reverse.mapM (fun v => renderValueTop cs v style) = .ok texts) :
+    renderStack cs style sep stack = .ok (sep.intercalate texts) := by
+  simp [renderStack, h, bind, Except.bind, pure, Except.pure]
+
+/-- The innermost instance comes first in `Spec.stack`, the instances of enclosing scopes follow. -/
+theorem spec_stack_nesting (f : Spec.Frame) (rest : Spec.Frames) (n : String) (v : Int)
+    (h : Spec.flookup f n = some v) : Spec.stack (f :: rest) n = v :: Spec.stack rest n := by
+  simp [Spec.stack, h]
+
+/-- `counter(name, style)`: the innermost instance, `0` when none is in scope. -/
+theorem counter_item (cs : Styles) (targets : Targets) (values : Snapshot) (name : String) (style : CName)
+    (rest : List Item) (acc t : String) (hs : style ≠ .named "none")
+    (h : renderValueTop cs (((values name).getD [0]).headD 0) style = .ok t) :
+    evalContent cs targets values (.counter name style :: rest) acc =
+      evalContent cs targets values rest (acc ++ t) := by
+  simp only [evalContent, hs, if_false, bind, Except.bind]
+  rw [h]
+
+/-- **C15.target_values** (printing side) — `target-counter(anchor, name, style)` prints the innermost
+instance of `name` in the snapshot stored for the anchor; an anchor without stored target ends the list. -/
+theorem target_counter_item (cs : Styles) (targets : Targets) (values tv : Snapshot) (anchor name : String)
+    (style : CName) (rest : List Item) (acc t : String) (hs : style ≠ .named "none")
+    (ht : tget targets anchor = some tv)
+    (h : renderValueTop cs (((tv name).getD [0]).headD 0) style = .ok t) :
+    evalContent cs targets values (.targetCounter anchor name style :: rest) acc =
+      evalContent cs targets values rest (acc ++ t) := by
+  simp only [evalContent, hs, if_false, ht, bind, Except.bind]
+  rw [h]
+
+theorem target_counter_missing (cs : Styles) (targets : Targets) (values : Snapshot) (anchor name : String)
+    (style : CName) (rest : List Item) (acc : String) (hs : style ≠ .named "none")
+    (ht : tget targets anchor = none) :
+    evalContent cs targets values (.targetCounter anchor name style :: rest) acc = .ok acc := by
+  simp [evalContent, hs, ht]
+
+/-- `store_target`: the first box stored under an anchor wins. -/
+theorem storeTarget_first_wins (ts : Targets) (a : String) (s s' : Snapshot) (h : tget ts a = some s) :
+    storeTarget ts a s' = ts := by
+  simp [storeTarget, h]
+
+private theorem tget_append_new (ts : Targets) (a b : String) (s : Snapshot) :
+    tget (ts ++ [(b, s)]) a = (tget ts a).orElse fun _ => if b = a then some s else none := by
+  induction ts with
+  | nil => simp [tget]
+  | cons x xs ih =>
+    obtain ⟨k, v⟩ := x
+    by_cases hk : k = a <;> simp [tget, hk, ih]
+
+theorem storeTarget_stores (ts : Targets) (a : String) (s : Snapshot) (h : tget ts a = none) :
+    tget (storeTarget ts a s) a = some s := by
+  simp [storeTarget, h, tget_append_new]
+
+theorem storeTarget_keeps (ts : Targets) (a b : String) (s s' : Snapshot) (h : tget ts a = some s) :
+    tget (storeTarget ts b s') a = some s := by
+  unfold storeTarget
+  cases hb : tget ts b with
+  | some _ => exact h
+  | none => simp [tget_append_new, h]
+
+section
+variable {σ : Type} (m : Machine σ)
+
+mutual
+/-- A stored snapshot is never replaced by the rest of the walk. -/
+theorem stored_kept_elem (cs : Styles) (targets : Targets) (a : String) (s : Snapshot) :
+    ∀ (e : Elem) (st : σ) (stored : Targets), tget stored a = some s →
+      ExAll (fun r => tget r.stored a = some s) (elemRun m cs targets e st stored)
+  | .mk ops listStyle markerContent anchor before after kids, st, stored, h => by
+    unfold elemRun
+    by_cases hd : ops.disp = .none
+    · simp [hd, ExAll, h]
+    · simp only [hd, if_false]
+      refine ExAll.bind (ExAll.triv _) ?_
+      intro st1 _
+      by_cases hli : ops.disp = .listItem
+      all_goals
+        simp only [hli, if_true, if_false]
+        refine ExAll.bind (ExAll.triv _) ?_
+        intro mk _
+        refine ExAll.bind (ExAll.triv _) ?_
+        intro pb _
+        have hst : tget (match anchor with
+            | some a' => storeTarget stored a' (m.stack pb.2)
+            | none => stored) a = some s := by
+          cases anchor with
+          | none => exact h
+          | some a' => exact storeTarget_keeps stored a a' s _ h
+        refine ExAll.bind (stored_kept_kids cs targets a s kids pb.2 _ hst) ?_
+        intro r hr
+        refine ExAll.bind (ExAll.triv _) ?_
+        intro pa _
+        refine ExAll.bind (ExAll.triv _) ?_
+        intro st3 _
+        simpa [ExAll, pure, Except.pure] using hr
+theorem stored_kept_kids (cs : Styles) (targets : Targets) (a : String) (s : Snapshot) :
+    ∀ (es : List Elem) (st : σ) (stored : Targets), tget stored a = some s →
+      ExAll (fun r => tget r.stored a = some s) (kidsRun m cs targets es st stored)
+  | [], st, stored, h => by simpa [kidsRun, ExAll] using h
+  | e :: rest, st, stored, h => by
+    unfold kidsRun
+    refine ExAll.bind (stored_kept_elem cs targets a s e st stored h) ?_
+    intro r1 hr1
+    refine ExAll.bind (stored_kept_kids cs targets a s rest r1.state r1.stored hr1) ?_
+    intro r2 hr2
+    simpa [ExAll, pure, Except.pure] using hr2
+end
+
+/-- **C15.target_values** (storing side) — for a displayed element carrying an anchor that no earlier
+element carried, the snapshot kept for the whole document is the counter state right after the element's
+own `counter-*` declarations and its `::before`, before its children and `::after` — and nothing later
+replaces it. -/
+theorem target_snapshot (cs : Styles) (targets : Targets) (ops : Ops) (listStyle : Option CName)
+    (markerContent : Option (List Item)) (a : String) (before after : Option Pseudo) (kids : List Elem)
+    (st : σ) (stored : Targets) (hd : ops.disp ≠ .none) (hnew : tget stored a = none) :
+    ExAll (fun r => ∃ st1 pb, m.update st ops = .ok st1 ∧
+        pseudoRun m cs targets "before" before (m.push st1) = .ok pb ∧
+        tget r.stored a = some (m.stack pb.2))
+      (elemRun m cs targets (.mk ops listStyle markerContent (some a) before after kids) st stored) := by
+  have self : ∀ {α : Type} (x : Except CErr α), ExAll (fun v => x = .ok v) x := by
+    intro α x; cases x <;> simp [ExAll]
+  unfold elemRun
+  simp only [hd, if_false]
+  refine ExAll.bind (self _) ?_
+  intro st1 hu
+  by_cases hli : ops.disp = .listItem
+  all_goals
+    simp only [hli, if_true, if_false]
+    refine ExAll.bind (ExAll.triv _) ?_
+    intro mk _
+    refine ExAll.bind (self _) ?_
+    intro pb hp
+    have hst : tget (storeTarget stored a (m.stack pb.2)) a = some (m.stack pb.2) :=
+      storeTarget_stores stored a _ hnew
+    refine ExAll.bind (stored_kept_kids m cs targets a _ kids pb.2 _ hst) ?_
+    intro r hr
+    refine ExAll.bind (ExAll.triv _) ?_
+    intro pa _
+    refine ExAll.bind (ExAll.triv _) ?_
+    intro st3 _
+    simp only [ExAll, pure, Except.pure]
+    exact ⟨st1, pb, hu, hp, hr⟩
+
+end
+
 /- `ExAll` is used through its lemmas only from here on: unfolding it on a concrete run would make the
 elaborator evaluate the whole traversal. -/
 attribute [irreducible] ExAll
